@@ -82,7 +82,7 @@ def gen(tier, rng, funcs):
         if c is None:
             return
         mfs = rng.choice([100, 1000, 100000])
-        cases.append("v%d %d:1 %s %s" % (n, mfs, c, " ".join(toks)))
+        cases.append("v%d %d:1:1 %s %s" % (n, mfs, c, " ".join(toks)))
         n += 1
 
     for _ in range(reps):
